@@ -8,7 +8,8 @@ from pv.gen import minipy as M
 from pv.gen import twin as TW
 
 _PROGS = {}
-SIZE = {"quick": 2, "thorough": 3}
+# size bound (statement nodes) of the general menu; the thorough tier adds the core menu at three nodes
+SIZE = {"quick": 2, "thorough": 2}
 
 
 def all_programs(tier, size=None, only=None, must=None, key=None, tails=(True,), sigs=(None,)):
@@ -29,10 +30,17 @@ def all_programs(tier, size=None, only=None, must=None, key=None, tails=(True,),
     return _PROGS[k]
 
 
+def core3_sets(tier):
+    """Thorough only: every program of up to three nodes over the core menu."""
+    if tier != "thorough":
+        return []
+    return [("core3", dict(size=3, only=M.CORE3, key=("core3",)))]
+
+
 def odd_set(tier):
     """Program set of rarely used forms and positions (yields inside tests, iterables, defaults, indexes;
     list targets of for/with; a None-valued global; a value whose == is neither free nor boolean)."""
-    return ("odd", dict(size=2 if tier == "quick" else 3, only=M.ODD_BASE, must=M.ODD, key=("odd", tier)))
+    return ("odd", dict(size=2, only=M.ODD_BASE, must=M.ODD, key=("odd", tier)))
 
 
 def count_programs(tier, **kw):
